@@ -2,5 +2,5 @@ SPECIFICATION Spec
 CONSTANTS
   Emit = TRUE
   Tier = "quick"
-INVARIANTS ResWellFormed NamesTransparent GepRow CmpShape CmpXchgPair CallRet CastTarget AggPathFollowed ShuffleMask SameAsOperand EmitOK
+INVARIANTS ResWellFormed NamesTransparent GepRow CmpShape CmpXchgPair CallRet CallSig CastTarget AggPathFollowed ShuffleMask SameAsOperand EmitOK
 CHECK_DEADLOCK FALSE
